@@ -166,7 +166,7 @@ class EnumValueProvider(BaseEnumProvider):
             loaded_value = value_loader(data)
             try:
                 return enum(loaded_value)
-            except ValueError:
+            except (ValueError, ArithmeticError):  # comparison with Decimal('sNaN') raises InvalidOperation
                 raise MsgLoadError("Bad enum value", data)
 
         return enum_loader
